@@ -326,6 +326,27 @@ def grid_cases():
             if n == 'data':
                 for e in good + bad:
                     yield {'ops': [['new', t, {'data': [1]}, 'ctor'], ['iadd', e], ['iadd', [2]]], 'grid_edge': True}
+                # ill-typed values that compare EQUAL to what is stored (round 13: an append fast path that validates
+                # only the tail when the new value starts with the stored data - 1.0 == 1)
+                for pre in ([T('float', 1.0), T('float', 2.0)], [T('fraction', [1, 1]), 2], [1, T('float', 2.0)]):
+                    for tail in ([], [3], [3, 4]):
+                        for how in ('set', 'copy', 'iadd-full'):
+                            first = ['new', t, {'data': [1, 2]}, 'ctor']
+                            if how == 'set':
+                                yield {'ops': [first, ['set', 'data', pre + tail], ['set', 'time', 1], ['redict']],
+                                       'grid_edge': True}
+                            elif how == 'copy':
+                                yield {'ops': [first, ['copy', {'data': pre + tail}, True], ['redict']], 'grid_edge': True}
+                            else:
+                                yield {'ops': [first, ['set', 'data', [1, 2]], ['set', 'data', pre + tail],
+                                               ['iadd', [5]]], 'grid_edge': True}
+            elif n != 'time':
+                # the same for the integer attributes: the float / Fraction equal to the stored value
+                for g in good[:3]:
+                    if isinstance(g, int):
+                        for e in (T('float', float(g)), T('fraction', [g, 1])):
+                            yield {'ops': [['new', t, {n: g}, 'ctor'], ['set', n, e], ['set', 'time', 1]], 'grid_edge': True}
+                            yield {'ops': [['new', t, {n: g}, 'ctor'], ['copy', {n: e}, True]], 'grid_edge': True}
         for n in UNKNOWN_NAMES + foreign_names(t):
             for e in (0, 1, [1]):
                 if n:
